@@ -26,7 +26,7 @@ import (
 var Check = &ev.Check{
 	ID:    "C12",
 	Level: "exploration",
-	Rule: "structured family: name in {a, Svc:method, 255*x, non-UTF8, NUL-containing; thorough +65536 bytes} x envelope type 0..127 (all) x seqid in {0,1,-1,min,max} x body in {empty, one i32, nested struct+list} " +
+	Rule: "structured family: name in {a, Svc:method, 255*x, non-UTF8, NUL-containing, 65536*n; thorough +65535 and 65793 bytes} x envelope type 0..127 (all) x seqid in {0,1,-1,min,max} x body in {empty, one i32, nested struct+list} " +
 		"x framing {strict, legacy, bare} x expected type {Call, OneWay} x API {DecodeRequest, ReadRequest} x reader {non-seekable, seekable} x read segmentations (all <=2-cut chunkings for messages <=24 bytes; " +
 		"whole, all-1-byte, first-read-1-byte, zero-length reads and every single cut beyond); plus envelope encode/decode round trips through the value and stream APIs against ref/tbin bytes. " +
 		"classification family: every byte string of length<=5 (quick) / <=6 (thorough) over {00,01,02,04,08,0b,0c,0f,7f,80,81,ff} under all <=2-cut chunkings. " +
@@ -393,8 +393,11 @@ func (r *runner) classify(msg []byte, et int8) {
 
 func names(thorough bool) [][]byte {
 	out := [][]byte{[]byte("a"), []byte("Svc:method"), bytes.Repeat([]byte("x"), 255), {0xff, 0xfe}, {'a', 0, 'b'}}
+	// the upper end of the name domain: 2^16 bytes is the first length whose second
+	// length byte is not zero (message types 0..4 and seqids {0,1} only for these)
+	out = append(out, bytes.Repeat([]byte("n"), 65536))
 	if thorough {
-		out = append(out, bytes.Repeat([]byte("n"), 65536))
+		out = append(out, bytes.Repeat([]byte("m"), 65535), bytes.Repeat([]byte("o"), 65536+257))
 	}
 	return out
 }
@@ -428,6 +431,9 @@ func run(w *ev.W) {
 		for typ := 0; typ < 128; typ++ {
 			for _, seq := range seqids {
 				for _, body := range bodies {
+					if len(name) > 1000 && (typ > 4 || seq > 1 || seq < 0) {
+						continue
+					}
 					if w.Own() && !expired() {
 						r.roundtrip(name, int8(typ), seq, body)
 						w.Done()
